@@ -49,7 +49,7 @@ func Project(a *App, kr *Keyring, opts ProjOpts) J {
 	accts := J{}
 	addrOf := map[string][]byte{}
 	vv.Acct.VerifLedger().VerifConsensusView(func(k ledger.LedgerKey, ac *rctypes.Account) {
-		n := kr.Name(ac.Address)
+		n := kr.NameAddr(ac.Address)
 		accts[n] = projAcct(ac)
 		addrOf[n] = append([]byte{}, ac.Address...)
 	})
